@@ -21,6 +21,11 @@ def main():
         # distinct priorities -> make ties unlikely; the comparer only uses tie-free cases for order
         for i, s in enumerate(sc["specs"]):
             s["prio"] = rng.choice([1, 2, 3, 5, 7, 11, 13, 17, 19, 23]) * (10 ** (i % 3))
+        if rng.random() < 0.5:
+            # resources do not change the order either: with max_concurrency=1 a main-thread or async-thread node waits
+            # for the pool like any other
+            for s_ in sc["specs"]:
+                s_["res"] = rng.choice(["t", "t", "m", "a"])
         d, _ = G.build(sc, inst=("w", k), maxc=1)
         if rng.random() < 0.5:
             # a history: (maybe) one call under the build-time priorities, then a reconfiguration that changes the
